@@ -43,8 +43,10 @@ def c01():
     chk = Check("C01", "model_checking")
     chk.mc(_fam(chk.tier), "SpecCore", _core_consts(),
            ["TypeOK", "Inv_Feasible", "Inv_CompleteAfterN"], timeout=3000)
+    # beyond every bound of the model checker: machine-checked proof for arbitrary finite instances
+    chk.tlaps_proof()
     if chk.tier == "thorough":
-        # beyond TLC's duration bounds: inductive invariant for 3x3x3 with symbolic durations / machine sets
+        # inductive invariant for 3x3x3 with symbolic durations / machine sets (Apalache)
         chk.apalache_inductive()
     behs, r = tlc_behaviours("c01", fam="FamA", filt="FiltA", mode="complete",
                              simulate=f"num={_n(chk, 500, 4000)}", workers=4)
@@ -75,6 +77,7 @@ def c02():
     chk.mc(_fam(chk.tier), "SpecCore", _core_consts(),
            ["Inv_Tracking", "Inv_SemiActive", "Inv_Makespan"], timeout=3000)
     if chk.tier == "thorough":
+        chk.tlaps_proof()            # (also part of C01's quick tier)
         chk.apalache_inductive()
     behs, _ = tlc_behaviours("c02", fam="FamA", filt="FiltB", resets=1, faults=2, mode="complete", simulate=f"num={_n(chk, 400, 3000)}", workers=4)
     # a HistoryObserver subscribed from the start, so that the recorded history can be replayed
